@@ -718,4 +718,343 @@ theorem session_table_find_eq (e : T.Env) (t : T.session_table) (mac : List Nat)
     | some j => rw [hf] at l6; simp at l6
 
 
+
+/-- the slot is valid and not complete -/
+def incQ (t : T.session_table) (k : Nat) : Bool :=
+  (t.entries.getD k T.session_entry.zero).valid && !(t.entries.getD k T.session_entry.zero).complete
+
+theorem firstBelow_none_iff (q : Nat → Bool) (n : Nat) : firstBelow q n = none ↔ ∀ k < n, q k = false := by
+  induction n with
+  | zero => simp [firstBelow]
+  | succ n ih =>
+    rw [firstBelow_succ]
+    cases hfb : firstBelow q n with
+    | some j =>
+      simp only [reduceCtorEq, false_iff]
+      intro h
+      have := ih.mpr (fun k hk => h k (by omega))
+      rw [hfb] at this; cases this
+    | none =>
+      have hall := ih.mp hfb
+      by_cases hq : q n = true
+      · simp only [hq, if_true, reduceCtorEq, false_iff]
+        intro h; have := h n (by omega); rw [hq] at this; cases this
+      · have hq' : q n = false := by simpa using hq
+        simp only [hq', Bool.false_eq_true, if_false, true_iff]
+        intro k hk
+        by_cases hk' : k < n
+        · exact hall k hk'
+        · have : k = n := by omega
+          subst this; exact hq'
+
+theorem all_iff_incQ (t : T.session_table) (ht : t.entries.length = 16) :
+    (t.entries.map entryOfC).all (fun e => !e.valid || e.complete) = (firstBelow (incQ t) 16).isNone := by
+  rw [Bool.eq_iff_iff, Option.isNone_iff_eq_none, firstBelow_none_iff]
+  simp only [List.all_eq_true, List.mem_map, forall_exists_index, and_imp, forall_apply_eq_imp_iff₂]
+  constructor
+  · intro h k hk
+    have hk' : k < t.entries.length := by omega
+    have := h (t.entries[k]) (List.getElem_mem hk')
+    unfold incQ
+    simp only [List.getD, List.getElem?_eq_getElem hk', Option.getD_some]
+    simp only [entryOfC, Bool.or_eq_true, Bool.not_eq_true'] at this
+    rcases this with h1 | h1 <;> simp [h1]
+  · intro h x hx
+    obtain ⟨k, hk, rfl⟩ := List.getElem_of_mem hx
+    have := h k (by omega)
+    unfold incQ at this
+    simp only [List.getD, List.getElem?_eq_getElem hk, Option.getD_some] at this
+    simp only [entryOfC]
+    cases hv : t.entries[k].valid <;> cases hc : t.entries[k].complete <;> simp_all
+
+theorem session_table_update_complete_status_eq (e : T.Env) (t : T.session_table) (ht : t.entries.length = 16) :
+    tableOfC (T.session_table_update_complete_status e t).table = (tableOfC t).updateStatus := by
+  unfold T.session_table_update_complete_status
+  have hinv := loopRange_inv (fun i (s : T.session_table_update_complete_status.S) =>
+      s.table = t ∧ s.done = false ∧ s.brk = (firstBelow (incQ t) i).isSome ∧ s.all_complete = (firstBelow (incQ t) i).isNone ∧
+      ((firstBelow (incQ t) i).isSome = true → s.any_valid = true))
+    16 (T.session_table_update_complete_status.loop1 e) 16 0 { table := t, all_complete := true, any_valid := false } (by omega)
+    ⟨rfl, rfl, rfl, rfl, by simp [firstBelow]⟩
+    (by
+      intro i s _ _ ⟨p1, p2, p3, p4, p5⟩
+      unfold T.session_table_update_complete_status.loop1
+      rw [firstBelow_succ]
+      cases hfb : firstBelow (incQ t) i with
+      | some j =>
+        rw [hfb] at p3 p4 p5
+        simp only [Option.isSome_some] at p3
+        simp only [p3, Bool.or_true, if_true]
+        exact ⟨p1, p2, by simp [p3], by simpa using p4, fun _ => p5 rfl⟩
+      | none =>
+        rw [hfb] at p3 p4
+        simp only [Option.isSome_none] at p3
+        simp only [p2, p3, Bool.or_self, Bool.false_eq_true, if_false, p1]
+        have hq : incQ t i = ((t.entries.getD i T.session_entry.zero).valid && !(t.entries.getD i T.session_entry.zero).complete) := rfl
+        generalize t.entries.getD i T.session_entry.zero = row at hq ⊢
+        cases hv : row.valid <;> cases hc : row.complete <;> simp [hq, hv, hc, p1, p2, p3, p4])
+  simp only []
+  generalize CSem.loopRange 0 16 (T.session_table_update_complete_status.loop1 e) { table := t, all_complete := true, any_valid := false } = L at hinv ⊢
+  obtain ⟨l1, l2, l3, l4, l5⟩ := hinv
+  simp only [l2, Bool.or_self, Bool.false_eq_true, if_false, Bool.false_or]
+  simp only [tableOfC, Table.updateStatus, l1, Table.mk.injEq, true_and]
+  have hall : (List.map entryOfC t.entries).all (fun e => !e.valid || e.complete) = (firstBelow (incQ t) 16).isNone := all_iff_incQ t ht
+  rw [hall, l4]
+  cases hfb : firstBelow (incQ t) 16 with
+  | none => simp
+  | some j => rw [hfb] at l5; simp [l5 rfl]
+
+/-- the table after the removal loop has stopped at slot `j` (or run through) -/
+def rmT (t : T.session_table) : Option Nat → T.session_table
+  | none => t
+  | some j => { t with entries := t.entries.set j { (t.entries.getD j T.session_entry.zero) with valid := false },
+                       count := if t.count > 0 then (t.count + 255) % 256 else t.count }
+
+theorem updateFirst_set (p : Entry → Bool) (f : Entry → Entry) (d : Entry) (l : List Entry) (h : l.findIdx p < l.length) :
+    updateFirst p f l = l.set (l.findIdx p) (f (l.getD (l.findIdx p) d)) := by
+  induction l with
+  | nil => simp at h
+  | cons x xs ih =>
+    by_cases hx : p x = true
+    · simp [updateFirst, hx, List.findIdx_cons]
+    · have hx' : p x = false := by simpa using hx
+      have h' : xs.findIdx p < xs.length := by simpa [List.findIdx_cons, hx'] using h
+      simp only [updateFirst, hx', Bool.false_eq_true, if_false, List.findIdx_cons, cond_false]
+      rw [ih h']; simp
+
+theorem find_none_any (t : Table) (mac : Mac) (gen : Nat) : t.find mac gen = none → t.entries.any (fun e => e.matches mac gen) = false := by
+  unfold Table.find
+  intro h
+  by_cases hlt : List.findIdx (fun e => e.matches mac gen) t.entries < t.entries.length
+  · simp [hlt] at h
+  · rw [Bool.eq_false_iff]; intro hany
+    rw [List.any_eq_true] at hany
+    obtain ⟨x, hx, hpx⟩ := hany
+    exact hlt (List.findIdx_lt_length_of_exists ⟨x, hx, hpx⟩)
+
+theorem find_some_any (t : Table) (mac : Mac) (gen : Nat) (j : Nat) : t.find mac gen = some j →
+    t.entries.any (fun e => e.matches mac gen) = true ∧ j = List.findIdx (fun e => e.matches mac gen) t.entries ∧ j < t.entries.length := by
+  unfold Table.find
+  intro h
+  by_cases hlt : List.findIdx (fun e => e.matches mac gen) t.entries < t.entries.length
+  · simp only [hlt, if_true, Option.some.injEq] at h
+    refine ⟨?_, h.symm, by omega⟩
+    rw [List.any_eq_true]
+    exact ⟨_, List.getElem_mem hlt, List.findIdx_getElem (w := hlt)⟩
+  · simp [hlt] at h
+
+theorem session_table_remove_eq (e : T.Env) (t : T.session_table) (mac : List Nat) (gen : Nat) (ht : TblOk t) (hm : mac.length = 6)
+    (hc : t.count < 256) :
+    tableOfC (T.session_table_remove e t mac gen).table = (tableOfC t).remove mac gen := by
+  unfold T.session_table_remove
+  have hinv := loopRange_inv (fun i (s : T.session_table_remove.S) =>
+      s.done = false ∧ s.mapper_mac = mac ∧ s.generation = gen ∧ s.brk = (firstBelow (findQ e mac gen t) i).isSome ∧
+      s.table = rmT t (firstBelow (findQ e mac gen t) i))
+    16 (T.session_table_remove.loop1 e) 16 0 { table := t, mapper_mac := mac, generation := gen } (by omega)
+    ⟨rfl, rfl, rfl, rfl, rfl⟩
+    (by
+      intro i s _ _ ⟨p1, p2, p3, p4, p5⟩
+      unfold T.session_table_remove.loop1
+      rw [firstBelow_succ]
+      cases hfb : firstBelow (findQ e mac gen t) i with
+      | some j =>
+        rw [hfb] at p4 p5
+        simp only [Option.isSome_some] at p4
+        simp only [p4, Bool.or_true, if_true]
+        exact ⟨p1, p2, p3, by simp [p4], p5⟩
+      | none =>
+        rw [hfb] at p4 p5
+        simp only [Option.isSome_none] at p4
+        have p5' : s.table = t := p5
+        simp only [p1, p4, Bool.or_self, Bool.false_eq_true, if_false, p2, p3, p5']
+        have hcq : ((((t.entries.getD i T.session_entry.zero).valid && (T.mac_equal e (t.entries.getD i T.session_entry.zero).mapper_mac mac).ret) &&
+            (((t.entries.getD i T.session_entry.zero).generation : Int) == (gen : Int)))) = findQ e mac gen t i := rfl
+        rw [hcq]
+        by_cases hq : findQ e mac gen t i = true
+        · simp only [hq, if_true]
+          by_cases hcz : t.count > 0
+          · have : ((t.count : Int) > 0) := by exact_mod_cast hcz
+            simp [this, hcz, rmT, p1, p2, p3]
+          · have : ¬ ((t.count : Int) > 0) := by exact_mod_cast hcz
+            simp [this, hcz, rmT, p1, p2, p3]
+        · have hq' : findQ e mac gen t i = false := by simpa using hq
+          simp [hq', p1, p2, p3, p4, rmT, p5'])
+  simp only []
+  generalize CSem.loopRange 0 16 (T.session_table_remove.loop1 e) { table := t, mapper_mac := mac, generation := gen } = L at hinv ⊢
+  obtain ⟨l1, _, _, _, l5⟩ := hinv
+  simp only [l1, Bool.or_self, Bool.false_eq_true, if_false]
+  rw [findQ_full e t mac gen ht hm] at l5
+  have hlen : L.table.entries.length = 16 := by
+    rw [l5]; cases (tableOfC t).find mac gen <;> simp [rmT, ht.hlen]
+  rw [session_table_update_complete_status_eq e L.table hlen, l5]
+  unfold Table.remove
+  congr 1
+  cases hf : (tableOfC t).find mac gen with
+  | none =>
+    have := find_none_any _ _ _ hf
+    simp [this, rmT]
+  | some j =>
+    obtain ⟨hany, hj, hjl⟩ := find_some_any _ _ _ _ hf
+    simp only [hany, if_true, rmT]
+    have hjl' : j < t.entries.length := by simpa [tableOfC] using hjl
+    have hlt : List.findIdx (fun e => e.matches mac gen) (tableOfC t).entries < (tableOfC t).entries.length := by rw [← hj]; exact hjl
+    rw [updateFirst_set _ _ (entryOfC T.session_entry.zero) _ hlt, ← hj]
+    simp only [tableOfC, Table.mk.injEq, List.map_set, true_and, getD_map_entry]
+    refine ⟨?_, ?_⟩
+    · congr 1
+    · by_cases hcz : t.count > 0
+      · simp only [hcz, if_true]; exact ⟨by omega, trivial⟩
+      · simp [hcz]
+
+/-- the slot is free -/
+def freeQ (t : T.session_table) (k : Nat) : Bool := !(t.entries.getD k T.session_entry.zero).valid
+
+def newC (e : T.Env) (mac : List Nat) (gen seq : Nat) : T.session_entry :=
+  { mapper_mac := mac, generation := gen, seq_number := seq, state := 2, complete := false, valid := true,
+    last_activity_ts := e.nowS, created_ts := e.nowS }
+
+/-- the table after the insertion loop has stopped at the free slot `j` (or run through a full table) -/
+def addT (e : T.Env) (mac : List Nat) (gen seq : Nat) (t : T.session_table) : Option Nat → T.session_table
+  | none => t
+  | some j => { entries := t.entries.set j (newC e mac gen seq), count := (t.count + 1) % 256, all_complete := false }
+
+theorem freeQ_full (t : T.session_table) (ht : TblOk t) :
+    firstBelow (freeQ t) 16 = (tableOfC t).firstFree := by
+  have hq : freeQ t = (fun k => (fun x : Entry => !x.valid) ((t.entries.map entryOfC).getD k (entryOfC T.session_entry.zero))) := by
+    funext k; unfold freeQ; rw [getD_map_entry]; rfl
+  have hfull := firstBelow_full (fun x : Entry => !x.valid) (t.entries.map entryOfC) (entryOfC T.session_entry.zero)
+  have h16 : (t.entries.map entryOfC).length = 16 := by simp [ht.hlen]
+  rw [h16] at hfull
+  rw [hq, hfull]
+  simp only [Table.firstFree, tableOfC, h16]
+
+theorem firstFree_none_any (t : Table) : t.firstFree = none → t.entries.any (fun e => !e.valid) = false := by
+  unfold Table.firstFree
+  intro h
+  by_cases hlt : List.findIdx (fun e : Entry => !e.valid) t.entries < t.entries.length
+  · simp [hlt] at h
+  · rw [Bool.eq_false_iff]; intro hany
+    rw [List.any_eq_true] at hany
+    obtain ⟨x, hx, hpx⟩ := hany
+    exact hlt (List.findIdx_lt_length_of_exists ⟨x, hx, hpx⟩)
+
+theorem firstFree_some_any (t : Table) (j : Nat) : t.firstFree = some j →
+    t.entries.any (fun e => !e.valid) = true ∧ j = List.findIdx (fun e : Entry => !e.valid) t.entries ∧ j < t.entries.length := by
+  unfold Table.firstFree
+  intro h
+  by_cases hlt : List.findIdx (fun e : Entry => !e.valid) t.entries < t.entries.length
+  · simp only [hlt, if_true, Option.some.injEq] at h
+    refine ⟨?_, h.symm, by omega⟩
+    rw [List.any_eq_true]
+    exact ⟨_, List.getElem_mem hlt, List.findIdx_getElem (w := hlt)⟩
+  · simp [hlt] at h
+
+theorem getD_set_self (l : List T.session_entry) (i : Nat) (a d : T.session_entry) (h : i < l.length) : (l.set i a).getD i d = a := by
+  simp [List.getD, List.getElem?_set_self h]
+
+theorem getD_set_self' (l : List T.session_entry) (i : Nat) (a d : T.session_entry) :
+    (l.set i a).getD i d = if i < l.length then a else d := by
+  by_cases h : i < l.length
+  · simp [List.getD, List.getElem?_set_self h, h]
+  · have h' : l.length ≤ i := by omega
+    simp [List.getD, h, List.getElem?_eq_none, h']
+
+theorem add_loop1_hit (e : T.Env) (i : Nat) (s : T.session_table_add.S) (hd : s.done = false) (hb : s.brk = false)
+    (hfree : (s.table.entries.getD i T.session_entry.zero).valid = false) (hi : i < s.table.entries.length)
+    (hcopy : (T.mac_copy e (s.table.entries.getD i T.session_entry.zero).mapper_mac s.mapper_mac).dst = s.mapper_mac) :
+    T.session_table_add.loop1 e i s =
+      { s with entry_idx2 := i,
+               table := { entries := s.table.entries.set i (newC e s.mapper_mac s.generation s.seq), count := (s.table.count + 1) % 256, all_complete := false },
+               ret_idx := some i, done := true } := by
+  unfold T.session_table_add.loop1
+  simp only [hd, hb, Bool.or_self, Bool.false_eq_true, if_false, hfree, Bool.not_false, if_true, hcopy]
+  simp only [getD_set_self', List.set_set, List.length_set, hi, if_true, newC]
+
+theorem add_loop1_miss (e : T.Env) (i : Nat) (s : T.session_table_add.S) (hd : s.done = false) (hb : s.brk = false)
+    (hfree : (s.table.entries.getD i T.session_entry.zero).valid = true) :
+    T.session_table_add.loop1 e i s = { s with entry_idx2 := i } := by
+  unfold T.session_table_add.loop1
+  simp only [hd, hb, Bool.or_self, Bool.false_eq_true, if_false, hfree, Bool.not_true]
+
+theorem add_loop1_skip (e : T.Env) (i : Nat) (s : T.session_table_add.S) (hd : s.done = true) :
+    T.session_table_add.loop1 e i s = s := by
+  unfold T.session_table_add.loop1
+  simp only [hd, Bool.true_or, if_true]
+
+theorem session_table_add_eq (e : T.Env) (t : T.session_table) (mac : List Nat) (gen seq : Nat) (ht : TblOk t) (hm : mac.length = 6) :
+    tableOfC (T.session_table_add e t mac gen seq).table = ((tableOfC t).add mac gen seq e.nowS).1 ∧
+    (T.session_table_add e t mac gen seq).ret_idx = ((tableOfC t).add mac gen seq e.nowS).2 := by
+  obtain ⟨f1, f2⟩ := session_table_find_eq e t mac gen seq ht hm
+  unfold T.session_table_add
+  simp only [f1, f2]
+  cases hf : (tableOfC t).find mac gen with
+  | some j =>
+    obtain ⟨hany, hj, hjl⟩ := find_some_any _ _ _ _ hf
+    have hjl' : j < t.entries.length := by simpa [tableOfC] using hjl
+    have hlt : List.findIdx (fun e => e.matches mac gen) (tableOfC t).entries < (tableOfC t).entries.length := by rw [← hj]; exact hjl
+    simp only [Option.isSome_some, if_true, Bool.true_or, Option.getD_some, getD_set_self _ _ _ _ hjl', List.set_set]
+    unfold Table.add
+    simp only [hany, if_true, hf]
+    refine ⟨?_, trivial⟩
+    rw [updateFirst_set _ _ (entryOfC T.session_entry.zero) _ hlt, ← hj]
+    simp only [tableOfC, Table.mk.injEq, List.map_set, getD_map_entry, and_self, and_true]
+    congr 1
+  | none =>
+    have hnany := find_none_any _ _ _ hf
+    simp only [Option.isSome_none, Bool.false_eq_true, if_false, Bool.or_self]
+    have hinv := loopRange_inv (fun i (s : T.session_table_add.S) =>
+        s.brk = false ∧ s.mapper_mac = mac ∧ s.generation = gen ∧ s.seq = seq ∧ s.done = (firstBelow (freeQ t) i).isSome ∧
+        s.ret_idx = firstBelow (freeQ t) i ∧ s.table = addT e mac gen seq t (firstBelow (freeQ t) i))
+      16 (T.session_table_add.loop1 e) 16 0 { table := t, mapper_mac := mac, generation := gen, seq := seq } (by omega)
+      ⟨rfl, rfl, rfl, rfl, rfl, rfl, rfl⟩
+      (by
+        intro i s _ hi ⟨p1, p2, p3, p4, p5, p6, p7⟩
+        rw [firstBelow_succ]
+        cases hfb : firstBelow (freeQ t) i with
+        | some j =>
+          rw [hfb] at p5 p6 p7
+          simp only [Option.isSome_some] at p5
+          rw [add_loop1_skip e i s p5]
+          exact ⟨p1, p2, p3, p4, by simp [p5], p6, p7⟩
+        | none =>
+          rw [hfb] at p5 p6 p7
+          simp only [Option.isSome_none] at p5
+          have p7' : s.table = t := p7
+          have hil : i < s.table.entries.length := by rw [p7', ht.hlen]; exact hi
+          by_cases hq : freeQ t i = true
+          · have hv : (s.table.entries.getD i T.session_entry.zero).valid = false := by
+              rw [p7']; unfold freeQ at hq; simpa using hq
+            have hcopy : (T.mac_copy e (s.table.entries.getD i T.session_entry.zero).mapper_mac s.mapper_mac).dst = s.mapper_mac := by
+              rw [p7', p2]; exact mac_copy_eq e _ mac (getD_zero_mac t ht i) hm
+            rw [add_loop1_hit e i s p5 p1 hv hil hcopy]
+            simp only [hq, if_true, Option.isSome_some, addT, p1, p2, p3, p4, p7', and_self]
+          · have hq' : freeQ t i = false := by simpa using hq
+            have hv : (s.table.entries.getD i T.session_entry.zero).valid = true := by
+              rw [p7']; unfold freeQ at hq'; simpa using hq'
+            rw [add_loop1_miss e i s p5 p1 hv]
+            simp only [hq', Bool.false_eq_true, if_false, Option.isSome_none, addT, p1, p2, p3, p4, p5, p6, p7', and_self])
+    generalize CSem.loopRange 0 16 (T.session_table_add.loop1 e) { table := t, mapper_mac := mac, generation := gen, seq := seq } = L at hinv ⊢
+    obtain ⟨l1, _, _, _, l5, l6, l7⟩ := hinv
+    rw [freeQ_full t ht] at l5 l6 l7
+    unfold Table.add
+    simp only [hnany, Bool.false_eq_true, if_false]
+    cases hff : (tableOfC t).firstFree with
+    | none =>
+      have := firstFree_none_any _ hff
+      rw [hff] at l5 l6 l7
+      simp only [Option.isSome_none] at l5
+      simp only [l5, l1, Bool.or_self, Bool.false_eq_true, if_false, this]
+      exact ⟨by rw [l7]; rfl, trivial⟩
+    | some j =>
+      obtain ⟨hany, hj, hjl⟩ := firstFree_some_any _ _ hff
+      rw [hff] at l5 l6 l7
+      simp only [Option.isSome_some] at l5
+      simp only [l5, Bool.true_or, if_true, hany]
+      refine ⟨?_, l6⟩
+      rw [l7]
+      have hlt : List.findIdx (fun e : Entry => !e.valid) (tableOfC t).entries < (tableOfC t).entries.length := by rw [← hj]; exact hjl
+      rw [updateFirst_set _ _ (entryOfC T.session_entry.zero) _ hlt, ← hj]
+      simp only [addT, tableOfC, Table.mk.injEq, List.map_set, u8, and_self, and_true]
+      congr 1
+
+
 end LLTD.TEq
